@@ -2,7 +2,9 @@
 
 Specification: specs/ChainRule.tla (+ ChainTopo.tla, ChainTopoDefs.tla, MatC09.tla).
   1. TLC enumerates the process topologies (ChainTopo: every listing of <= MaxN disciplines, every
-     input set, overwritten names, members of parallel/additive chains) and labels their classes.
+     input set, overwritten names, SELF-OVERWRITING members - state-update steps that read and write
+     up to two names, alone, repeated, followed by readers -, members of parallel/additive chains) and
+     labels their classes.
   2. Instances = topology x composition kind x sizes x INTEGER partial Jacobians x points x request
      history are given to ChainRule.tla; TLC computes the expected value of every name and the total
      derivative block of every (output, input) pair (forward propagation with the visibility rules of
@@ -31,23 +33,33 @@ NEXT = 2  # external names
 POOL = ["a", "b", "c", "d", "e", "f", "g", "h", "k", "m", "p", "q", "r", "s", "t", "u", "v", "w", "x", "y", "z"]
 
 
-def topo_cfg(max_n, max_ins, max_extra, extra_ext, independent=False, npool=2):
+def topo_cfg(max_n, max_ins, max_extra, extra_ext, independent=False, npool=2, max_self=0):
     return (f"CONSTANTS MaxN = {max_n}\n NExt = {NEXT}\n MaxIns = {max_ins}\n MaxExtra = {max_extra}\n"
             f" ExtraExt = {'TRUE' if extra_ext else 'FALSE'}\n Independent = {'TRUE' if independent else 'FALSE'}\n"
+            f" MaxSelf = {max_self}\n"
             f" NPool = {npool}\nSPECIFICATION Spec\nINVARIANT Legal\nINVARIANT Emit\nCHECK_DEADLOCK FALSE\n")
 
 
 # The implementation-shaped model follows the code AS READ TODAY.  Once the fixes/C09-*.patch are committed to
 # /repo set this to True: the model then uses the repaired assembly rules (and the known_findings become "fixed").
 MODEL_REPAIRED = True
+# The linearization point of the self-overwriting members of an MDOChain (LinVal in ChainRule.tla): the model follows
+# the code as read today (the member's local data AFTER its execution).  Set to True once
+# fixes/C09-D18e-chain-self-overwriting-member-point.patch is committed to /repo (the finding D18e becomes "fixed").
+MODEL_REPAIRED_POINT = True
+SELF_CLASSES = ("self_overwriting", "self_overwriting_multi", "self_overwriting_repeated", "self_overwriting_read",
+                "self_overwriting_cross", "self_overwriting_pure")
 
 
-def rule_cfg(exhaustive=False, max_hist=3, check_known=False, view=False, emit=True, full_alphabet=False, repaired=None):
+def rule_cfg(exhaustive=False, max_hist=3, check_known=False, view=False, emit=True, full_alphabet=False, repaired=None,
+             repaired_pt=None, invs=None):
     rep = MODEL_REPAIRED if repaired is None else repaired
+    rpt = MODEL_REPAIRED_POINT if repaired_pt is None else repaired_pt
     s = (f"CONSTANTS Exhaustive = {'TRUE' if exhaustive else 'FALSE'}\n MaxHist = {max_hist}\n Repaired = {'TRUE' if rep else 'FALSE'}\n"
+         f" RepairedPt = {'TRUE' if rpt else 'FALSE'}\n"
          f" CheckKnown = {'TRUE' if check_known else 'FALSE'}\n FullAlphabet = {'TRUE' if full_alphabet else 'FALSE'}\n"
          "SPECIFICATION Spec\nCHECK_DEADLOCK FALSE\n")
-    for i in INVS:
+    for i in (INVS if invs is None else invs):
         s += f"INVARIANT {i}\n"
     if emit:
         s += "INVARIANT Emit\n"
@@ -178,11 +190,11 @@ def draw_history(rng: random.Random, chain_in, chain_out, length, npoints=2):
 
 # ------------------------------------------------------------------ TLC on instances
 
-def tlc_instances(ck: Check, insts, tag, *, expect_ok=True, workers=1, **cfgkw):
+def tlc_instances(ck: Check, insts, tag, *, expect_ok=True, workers=1, count=True, **cfgkw):
     f = ck.work / f"c09-{tag}.json"
     f.write_text(json.dumps(insts))
     r = ck.tlc("ChainRule", rule_cfg(**cfgkw), workers=workers, timeout=2700, env={"C09_INPUT": str(f)}, coverage=False,
-               expect_ok=expect_ok)
+               expect_ok=expect_ok, count=count, tag=tag)
     inst_lines, req_lines = {}, {}
     for v in r.printed():
         if not isinstance(v, tuple) or not v:
@@ -196,6 +208,14 @@ def tlc_instances(ck: Check, insts, tag, *, expect_ok=True, workers=1, **cfgkw):
                                                          "dIn": _seq(din), "dOut": _seq(dout), "agrees": agrees,
                                                          "sig": sigcls, "indep": indep, "dup": dup}
     return r, inst_lines, req_lines
+
+
+def together(*jobs):
+    """Run independent TLC jobs (callables) side by side; the results in order (an exception of any is re-raised)."""
+    from concurrent.futures import ThreadPoolExecutor
+    with ThreadPoolExecutor(len(jobs)) as ex:
+        futs = [ex.submit(j) for j in jobs]
+        return [f.result() for f in futs]
 
 
 def _seq(x):
@@ -359,11 +379,15 @@ def stratified(rng, topos, k, must=("diamond", "fan_in", "fan_out", "pass_throug
     return [topos[j] for j in sorted(chosen)]
 
 
+SELF_MUST = ("self_overwriting_cross", "self_overwriting_cross", "self_overwriting_multi", "self_overwriting_repeated", "self_overwriting_read",
+             "self_overwriting_pure")
+
+
 def _plain(t):
     return "overwritten" not in t["classes"] and "input_is_output" not in t["classes"]
 
 
-def exhaustive_histories(ck: Check, rng, seq_topos, ind_topos, next_id):
+def exhaustive_histories(ck: Check, rng, seq_topos, ind_topos, self_topos, next_id):
     """Every request history over the alphabet (single names, full sets, compute_all_jacobians) up to a depth:
     (a) checked by TLC on the implementation-shaped model with the VIEW (histories quantifier at model level),
     (b) printed without VIEW for a few instances and ALL of them replayed on fresh real objects."""
@@ -374,38 +398,62 @@ def exhaustive_histories(ck: Check, rng, seq_topos, ind_topos, next_id):
         raise MachineryError("the diamond is not among the enumerated topologies")
     rich = [t for t in plain3 if {"diamond", "pass_through", "fan_out"} <= t["classes"] or "isolated" in t["classes"]]
     par = [t for t in ind_topos if t["n"] >= 2 and len({o for s in t["outs"] for o in s}) == sum(len(s) for s in t["outs"])]
-    add = [t for t in ind_topos if t["n"] >= 2 and all(len(s) == 2 for s in t["ins"]) and len({tuple(s) for s in t["outs"]}) == 1]
+    # additive chain: an output summed over two members that share an input, and another output the first one lacks
+    add = [t for t in ind_topos if t["n"] >= 2 and "additive_uneven" in t["classes"]]
+    # an overwritten name whose first definition depends on a chain input that the overwriting discipline ignores
+    small = lambda t: len({v for s in t["ins"] + t["outs"] for v in s}) <= 5  # noqa: E731 - (size of the request alphabet)
+    shadowed = [t for t in seq_topos if t["n"] == 3 and "shadowed" in t["classes"] and "self_overwriting" not in t["classes"]
+                and small(t)]
+    if not add or not shadowed:
+        raise MachineryError("no additive_uneven / shadowed topology among the enumerated ones")
     picks = [(diamond[0], "chain")] + [(t, "chain") for t in rng.sample(rich, 2 if th else 1)]
+    picks += [(t, "chain") for t in rng.sample(shadowed, 1)]
     picks += [(rng.choice(par), "parallel"), (rng.choice(add), "additive")]
+    # a state-update step of two names repeated and then read: every history of sub-requests on the same object
+    step = [t for t in self_topos if {"self_overwriting_cross", "self_overwriting_repeated", "self_overwriting_read"} <= t["classes"]
+            and small(t)]
+    # (thorough tier; the quick tier replays random histories of three requests on this family)
+    picks += [(t, "chain") for t in rng.sample(step, 1 if th else 0)]
     insts, metas = [], {}
     for k, (t, shape) in enumerate(picks):
         inst, meta = draw_instance(rng, next_id + k, t, shape, exhaustive=True)
-        if shape == "additive":  # all the outputs are summed: the all-outputs requests are in the plain class
-            inst["osum"] = sorted({o for s in t["outs"] for o in s})
+        if shape == "additive":  # the outputs with several producers are the summed ones
+            outs = [o for s in t["outs"] for o in s]
+            inst["osum"] = sorted({o for o in outs if outs.count(o) >= 2})
             meta["struct"] = ("additive", meta["struct"][1], inst["osum"])
         insts.append(inst)
         metas[inst["id"]] = meta
     # (a) model level, larger set, VIEW
     more = [draw_instance(rng, next_id + 100 + k, t, "chain", exhaustive=True)[0]
-            for k, t in enumerate(rng.sample([t for t in seq_topos if t["n"] <= 3 and _plain(t)], 40 if th else 8))]
-    r, _, _ = tlc_instances(ck, insts + more, "exh-view", exhaustive=True, max_hist=3, view=True, emit=False,
-                            full_alphabet=th, workers=8)
-    ck.extra["exhaustive_history_states_model_level"] = r.distinct
-    # (b) every history, replayed
+            for k, t in enumerate(rng.sample([t for t in seq_topos if t["n"] <= 3 and _plain(t)], 20 if th else 5)
+                                  + rng.sample([t for t in seq_topos if t["n"] <= 3 and not _plain(t)], 8 if th else 2)
+                                  + rng.sample([t for t in self_topos if t["n"] <= 2], 6 if th else 2))]
+    # (b) every history printed (expected blocks only: (a) checks the invariants on these instances), then replayed
     depth = 3 if th else 2
-    r, il, rl = tlc_instances(ck, insts, "exh-replay", exhaustive=True, max_hist=depth)
+    (r, _, _), (_, il, rl) = together(
+        lambda: tlc_instances(ck, insts + more, "exh-view", exhaustive=True, max_hist=3, view=True, emit=False,
+                              full_alphabet=th, workers=8 if th else 3),
+        lambda: tlc_instances(ck, insts, "exh-replay", exhaustive=True, max_hist=depth, invs=["WellFormed"], count=False))
+    ck.extra["exhaustive_history_states_model_level"] = r.distinct
     n = 0
     for inst in insts:
         iid = inst["id"]
         reqs = rl.get(iid, {})
         keys = set(reqs)
         maximal = [k for k in keys if not any(len(k2) == len(k) + 1 and k2[: len(k)] == k for k2 in keys)]
-        checked = set()
-        for key in sorted(maximal):
-            hist = [[list(a), list(b), c, d] for a, b, c, d in key]
-            replay_history(ck, inst, metas[iid], il[iid], reqs, hist, checked)
-            n += 1
-            ck.traces += 1
+        # every history on every representation of the leaves' Jacobians (the specification does not depend on it):
+        # up to the full depth as the instance was drawn, up to depth 2 on the three uniform representations
+        upto2 = [k for k in keys if len(k) == min(2, depth)]
+        for jk in (None, "dense", "sparse", "operator"):
+            if jk is None and depth <= 2:
+                continue
+            meta = metas[iid] if jk is None else dict(metas[iid], jac_kind=jk, jac_kinds=[jk] * inst["n"])
+            checked = set()
+            for key in sorted(maximal if jk is None else upto2):
+                hist = [[list(a), list(b), c, d] for a, b, c, d in key]
+                replay_history(ck, inst, meta, il[iid], reqs, hist, checked)
+                n += 1
+                ck.traces += 1
     ck.extra["exhaustive_histories_replayed"] = n
     ck.extra["exhaustive_history_depth"] = depth
 
@@ -428,10 +476,27 @@ def refute_known_classes(ck: Check, rng):
         if shape == "additive":
             inst["osum"] = [3]
         inst["hist"] = [[[2] if shape == "additive" else [1, 2], sorted({o for s in t["outs"] for o in s}), shape != "additive", 1]]
-        r, _, _ = tlc_instances(ck, [inst], f"refute-{name}", expect_ok=False, check_known=True, emit=False, repaired=False)
+        r, _, _ = tlc_instances(ck, [inst], f"refute-{name}", expect_ok=False, check_known=True, emit=False, repaired=False,
+                                repaired_pt=False)
         out[name] = r.violated
         if r.violated != "AccIsTotal":
             raise MachineryError(f"the implementation-shaped model does not show the known defect class {name}: {r.violated}")
+    # the linearization point of a self-overwriting polynomial member (x -> x, then a reader): with the accumulation
+    # rules repaired, the model that evaluates the member's partial at the value it has WRITTEN is refuted, the one
+    # that evaluates it at the value it has READ satisfies every invariant
+    t = {"n": 2, "ins": [[1], [1, 2]], "outs": [[1], [3]]}
+    inst, _ = draw_instance(random.Random(4321), 9100, t, "chain", poly=True)
+    for e in inst["P"]:
+        e[3] = [[1 for _ in row] for row in e[3]]
+    inst["points"] = [[[2 for _ in range(sz)] for sz in inst["size"]] for _ in inst["points"]]
+    inst["hist"] = [[[1, 2], [1, 3], False, 1], [[1], [3], False, 1]]
+    name = "self_overwriting_nonlinear"
+    r, _, _ = tlc_instances(ck, [inst], f"refute-{name}", expect_ok=False, check_known=True, emit=False, repaired=True,
+                            repaired_pt=False)
+    out[name] = r.violated
+    if r.violated != "AccIsTotal":
+        raise MachineryError(f"the implementation-shaped model does not show the known defect class {name}: {r.violated}")
+    tlc_instances(ck, [inst], f"holds-{name}", check_known=True, emit=False, repaired=True, repaired_pt=True)
     ck.extra["defect_classes_refuted_at_specification_level"] = out
 
 
@@ -451,15 +516,22 @@ def run(ck: Check):
     if not th:
         seq_topos += [t for t in enumerate_topologies(ck, max_n=4, max_ins=2, max_extra=1, extra_ext=False) if t["n"] == 4]
     ind_topos = enumerate_topologies(ck, max_n=3, max_ins=2, max_extra=0, extra_ext=False, independent=True, npool=3 if th else 2)
-    ck.extra["topologies_enumerated"] = {"sequential": len(seq_topos), "independent_members": len(ind_topos)}
+    # self-overwriting members (state-update steps): a discipline reads AND writes up to 2 names, with or without
+    # an output of its own; alone, repeated, followed by readers (the labels come from TLC)
+    self_topos = [t for t in enumerate_topologies(ck, max_n=3, max_ins=3 if th else 2, max_extra=0, extra_ext=False, max_self=2)
+                  if "self_overwriting" in t["classes"]]
+    ind_self = [t for t in enumerate_topologies(ck, max_n=3 if th else 2, max_ins=2, max_extra=0, extra_ext=False, independent=True,
+                                                npool=2, max_self=2) if "self_overwriting" in t["classes"]]
+    ck.extra["topologies_enumerated"] = {"sequential": len(seq_topos), "independent_members": len(ind_topos),
+                                         "self_overwriting": len(self_topos), "self_overwriting_independent_members": len(ind_self)}
     lap("topologies")
     clean = [t for t in seq_topos if "overwritten" not in t["classes"] and "input_is_output" not in t["classes"]]
     segm = [t for t in clean if len(segments(t)) >= 2]
 
     budget = {"chain": 1400, "nested": 500, "parallel": 250, "additive": 250, "parallel_of_chains": 200,
-              "mda": 300, "mda_parallel": 150, "poly": 400} if th else \
+              "mda": 300, "mda_parallel": 150, "poly": 400, "self_chain": 300, "self_nested": 100, "self_poly": 100, "self_parallel": 60} if th else \
              {"chain": 160, "nested": 50, "parallel": 30, "additive": 30, "parallel_of_chains": 20,
-              "mda": 30, "mda_parallel": 15, "poly": 40}
+              "mda": 30, "mda_parallel": 15, "poly": 40, "self_chain": 56, "self_nested": 16, "self_poly": 16, "self_parallel": 12}
     plan = []
     plan += [(t, "chain", False) for t in stratified(rng, seq_topos, budget["chain"])]
     plan += [(t, "nested", False) for t in stratified(rng, [t for t in seq_topos if t["n"] >= 2], budget["nested"])]
@@ -470,6 +542,17 @@ def run(ck: Check):
         plan += [(t, shape, False) for t in stratified(rng, [t for t in clean if t["n"] >= 2], budget[shape])]
     plan += [(t, rng.choice(["chain", "chain", "nested", "mda"]) if t in clean else "chain", True)
              for t in stratified(rng, [t for t in seq_topos if t["n"] <= 3], budget["poly"])]
+    # the self-overwriting family: linear members (the composed blocks are exact whatever the point), in a flat
+    # chain and in nested chains; polynomial members for the "partials at the point the member has read" clause
+    alone = [t for t in self_topos if t["n"] == 1]
+    plan += [(t, "chain", False) for t in rng.sample(alone, min(len(alone), 12 if th else 5))]
+    plan += [(t, "chain", False) for t in stratified(rng, self_topos, budget["self_chain"], must=SELF_MUST)]
+    plan += [(t, "nested", False) for t in stratified(rng, [t for t in self_topos if t["n"] >= 2], budget["self_nested"], must=SELF_MUST)]
+    plan += [(t, rng.choice(["chain", "chain", "nested"]), True)
+             for t in stratified(rng, self_topos, budget["self_poly"], must=SELF_MUST)]
+    # ... and as members of a parallel / additive chain (every member reads the data at the entry of the chain)
+    plan += [(t, rng.choice(["parallel", "parallel", "additive"]), rng.random() < 0.35)
+             for t in rng.sample(ind_self, min(len(ind_self), budget["self_parallel"]))]
     insts, metas = [], {}
     for k, (t, shape, poly) in enumerate(plan):
         inst, meta = draw_instance(rng, k + 1, t, shape, poly=poly)
@@ -482,11 +565,21 @@ def run(ck: Check):
         g = il0[inst["id"]]
         inst["hist"] = draw_history(rng, g["in"], g["out"], metas[inst["id"]]["hist_len"])
     lap("grammars")
-    r, il, rl = tlc_instances(ck, insts, "main", max_hist=3)
+    # the same state space twice, side by side: one worker prints the expected blocks of every instance and request
+    # (PrintT needs a single worker), three workers check the invariants of the specification on every state
+    (r, il, rl), _ = together(
+        lambda: tlc_instances(ck, insts, "main", max_hist=3, invs=["WellFormed"], count=False),
+        lambda: tlc_instances(ck, insts, "main-inv", max_hist=3, emit=False, workers=8 if th else 3))
     lap("tlc_main")
     # the repaired assembly rules (fixes/C09-*.patch) satisfy AccIsTotal on EVERY class, the defect classes included
-    r2, _, _ = tlc_instances(ck, insts, "repaired", max_hist=3, repaired=True, check_known=True, emit=False, workers=2)
-    ck.extra["repaired_rules_hold_on_states"] = r2.distinct
+    # (with MODEL_REPAIRED the first pass has demanded AccIsTotal with the same rules on every class but the
+    # polynomial self-overwriting members: only those are left)
+    sub = [i for i in insts if not MODEL_REPAIRED or (not MODEL_REPAIRED_POINT and il[i["id"]]["defect"] == "self_overwriting_nonlinear")]
+    if sub:
+        r2, _, _ = tlc_instances(ck, sub, "repaired", max_hist=3, repaired=True, repaired_pt=True, check_known=True, emit=False,
+                                 workers=2)
+        ck.extra["repaired_rules_hold_on_states"] = r2.distinct
+    ck.extra["repaired_rules_checked_on_instances"] = len(sub)
     lap("tlc_repaired")
     n_hist = 0
     for inst in insts:
@@ -508,7 +601,21 @@ def run(ck: Check):
             or sum(len(v) for v in rl.values()) < len(insts):
         raise MachineryError(f"vacuous run: missing shapes {sorted(missing)}, blocks {ck.extra.get('blocks_compared')}, "
                              f"model steps {ck.extra.get('model_steps')}, REQ lines {sum(len(v) for v in rl.values())}")
-    exhaustive_histories(ck, rng, seq_topos, ind_topos, next_id=len(insts) + 1)
+    # ... and the self-overwriting family was replayed: linear members, >= 2 names updated at once and read later
+    by_class = {}
+    for inst in insts:
+        if inst["poly"]:
+            continue
+        for c in il[inst["id"]]["classes"]:
+            if c in SELF_CLASSES:
+                by_class[c] = by_class.get(c, 0) + 1
+    by_class["alone"] = sum(1 for i in insts if i["n"] == 1 and "self_overwriting" in il[i["id"]]["classes"])
+    by_class["polynomial"] = sum(1 for i in insts if i["poly"] and "self_overwriting" in il[i["id"]]["classes"])
+    ck.extra["self_overwriting_instances_replayed"] = by_class
+    need = {"self_overwriting_cross": 12, "self_overwriting_repeated": 8, "self_overwriting_read": 8, "alone": 3, "polynomial": 8}
+    if any(by_class.get(c, 0) < k for c, k in need.items()):
+        raise MachineryError(f"vacuous run: self-overwriting instances replayed {by_class}, needed {need}")
+    exhaustive_histories(ck, rng, seq_topos, ind_topos, self_topos, next_id=len(insts) + 1)
     lap("exhaustive_histories")
     refute_known_classes(ck, rng)
     lap("refute")
@@ -519,6 +626,8 @@ def run(ck: Check):
         "exact-arithmetic slice: integer partial Jacobians (entries -2..2, polynomial leaves -1..1), sizes 1..2, <= 4 leaves, one level of nesting",
         "MDAChain is linearized with chain_linearize=True (the chain rule); chain_linearize=False delegates to JacobianAssembly, which is property C07",
         "the leaves' differentiated sets predicted by the implementation-shaped model are compared with the real objects as evidence only (not a clause of the property)",
+        "self-overwriting members (a discipline that reads and writes the same names) are enumerated in sequential chains (flat and nested, <= 3 leaves, <= 2 names updated by a member); linear members carry the exactness clause of the accumulation, polynomial members the 'partials at the point the member has read' clause (known finding D18e)",
+        "a process discipline with a full cache set at the chain level (MemoryFullCache/HDF5Cache) is a cache-transparency matter (C05), not enumerated here: every process of this check keeps its default cache",
     ]
 
 
